@@ -27,6 +27,7 @@ import (
 	"github.com/emersion/go-webdav/verifharness/davx"
 	"github.com/emersion/go-webdav/verifharness/doubles"
 	"github.com/emersion/go-webdav/verifharness/fw"
+	"github.com/emersion/go-webdav/verifharness/props/fsx"
 )
 
 // hdr is one request header line (K in canonical form).
@@ -157,6 +158,10 @@ func run(c *fw.Ctx) {
 	runAnnounce(c)
 	runCodec(c)
 	runPassThrough(c)
+	// conditional uploads during which another request changes the target:
+	// "otherwise it is answered 412 and nothing changes" also when the
+	// precondition stops holding mid-upload (shared family, see props/fsx)
+	fsx.Interference(c, fsx.Monitors{Unchanged: true})
 }
 
 func replay(c *fw.Ctx, w json.RawMessage) {
